@@ -151,6 +151,17 @@ impl GenerationPass for AvailableValuePass {
                         acc
                     })
                     .unwrap_or_default();
+                // Once a node has been computed in this run its in-sets only
+                // shrink. Without this the values travelling around a cycle
+                // along paths of different length (in sweep order) can
+                // alternate forever instead of settling.
+                let in_reg_n = if visited.contains(&node) {
+                    let mut old = node.reg_values_in();
+                    old &= &in_reg_n;
+                    old
+                } else {
+                    in_reg_n
+                };
                 changed |= node.set_reg_values_in(in_reg_n);
 
                 // in_memory[n] = AND out_memory[p] for all p in prev[n]
@@ -165,6 +176,13 @@ impl GenerationPass for AvailableValuePass {
                         acc
                     })
                     .unwrap_or_default();
+                let in_memory_n = if visited.contains(&node) {
+                    let mut old = node.memory_values_in();
+                    old &= &in_memory_n;
+                    old
+                } else {
+                    in_memory_n
+                };
                 changed |= node.set_memory_values_in(in_memory_n);
 
                 // out[n] = gen[n] U (in[n] - kill[n]) U (callee_saved if n is entry)
